@@ -97,7 +97,12 @@ TermHolds(c, r) ==
 TermFailing(r) ==
   LET f == {c \in Range(TermClauses) : ~TermHolds(c, r)} IN
   IF f # {} /\ r.fn = "epa" /\ r.simplexRows < 4 /\ f \subseteq {"OnlyDocumentedException", "OutputsFinite"} /\ r.exc \in {"none", "AssertionError"}
-  THEN f \cup {"ZONE_IncompleteSimplex"} ELSE f
+  THEN f \cup {"ZONE_IncompleteSimplex"}
+  \* second named pattern: mpr_penetration on two zero-volume colliders (r.flatPair: planar hulls, segments, disks, ellipses in a scene that is NOT an exact lattice scene,
+  \* i.e. rounding has entered the coordinates - an input description by the harness; exact lattice scenes stay fully judged) whose portal degenerates: the contact position is NaN (the C19 face of the C08 finding
+  \* mpr:grazing-contact-position); only OutputsFinite is covered
+  ELSE IF f = {"OutputsFinite"} /\ r.fn = "mpr_penetration" /\ r.flatPair THEN f \cup {"ZONE_FlatPairMpr"}
+  ELSE f
 
 (* ---------------- primitive distance functions (C10, C11): kind = "prim" ----------------
    one record per call of a function of distance3d.distance on lattice primitives (or their lifts):
